@@ -91,10 +91,6 @@ class ModelProperty(PropertyProtocol):
             optional_properties = property_data.optional_props
             relative_imports = property_data.relative_imports
             lazy_imports = property_data.lazy_imports
-            for root in roots:
-                if isinstance(root, utils.ClassName):
-                    continue
-                schemas.add_dependencies(root, {class_info.name})
 
         prop = ModelProperty(
             class_info=class_info,
@@ -117,6 +113,14 @@ class ModelProperty(PropertyProtocol):
                 data=data, detail=f'Attempted to generate duplicate models with name "{class_info.name}"'
             )
             return error, schemas
+
+        if process_properties:
+            # Only a class which is actually registered may be recorded as belonging to its roots, otherwise removing
+            # a root would take the other, unrelated class of the same name down with it
+            for root in roots:
+                if isinstance(root, utils.ClassName):
+                    continue
+                schemas.add_dependencies(root, {class_info.name})
 
         schemas = evolve(
             schemas,
